@@ -131,6 +131,19 @@ def reply_mutants(rng, host):
         _rm(q, "on_alpha_ok")["payload"] = [ta, st]
         _rm(q, "on_alpha_err")["payload"] = [tb, st]
         out.append((f"reply-payload-type-generic-arg-{tag}", q, ["Mismatched parameter in reply handlers"]))
+    # one handler name, one wire format of its payload: only one of its two methods takes the `Binary` raw
+    bn = spec.intern_type(host, T.BINARY)
+    for marked in ("on_alpha_ok", "on_alpha_err"):
+        q = _clone(host)
+        q["types"] = host["types"]
+        for mn in ("on_alpha_ok", "on_alpha_err"):
+            m = _rm(q, mn)
+            m["payload"] = [bn]
+            m["payload_names"] = ["payload"]
+        _rm(q, marked)["raw_mark"] = True
+        if rng.random() < 0.5:
+            c(q)["handlers"].reverse()
+        out.append((f"reply-mixed-raw-{marked}", q, ["Mismatched `sv::payload(raw)` usage"]))
     q = add(_clone(host), dict(reply_method(host, "on_gamma", ["gamma"], "error", "raw"), params_text=["error: String"]))
     out.append(("reply-missing-payload-error", q, ["Missing payload parameter"]))
     q = add(_clone(host), dict(reply_method(host, "on_gamma", ["gamma"], "success", "raw"), params_text=[]))
